@@ -15,6 +15,7 @@ import (
 	"errors"
 	"fmt"
 	"io"
+	"math"
 	"os"
 	"runtime"
 	"runtime/debug"
@@ -75,6 +76,46 @@ func classify(err error) (tok string, limit uint64) {
 		return "Limit", le.Limit
 	}
 	return "other:" + err.Error(), 0
+}
+
+// Extreme limits (IOCommon.tla, HugeBase): a symbolic limit >= hugeBase stands
+// for one of the real constants below; rot rotates through them so that one
+// generated path is replayed with different constants on different lines.
+const hugeBase = 1000000000
+
+var hugeLimits = []struct {
+	name string
+	v    uint64
+}{
+	{"math.MaxInt64-1", math.MaxInt64 - 1},
+	{"math.MaxInt64", math.MaxInt64},
+	{"math.MaxInt64+1", math.MaxInt64 + 1},
+	{"math.MaxUint64-1", math.MaxUint64 - 1},
+	{"math.MaxUint64", math.MaxUint64},
+}
+
+func realLimit(sym, rot int) uint64 {
+	if sym >= hugeBase {
+		return hugeLimits[(sym-hugeBase+rot)%len(hugeLimits)].v
+	}
+	return uint64(sym)
+}
+
+func limName(sym, rot int) string {
+	if sym >= hugeBase {
+		return hugeLimits[(sym-hugeBase+rot)%len(hugeLimits)].name
+	}
+	return fmt.Sprint(sym)
+}
+
+// symLimit maps a limit reported by the code back to the symbolic value.
+func symLimit(v uint64) int {
+	for i, h := range hugeLimits {
+		if v == h.v {
+			return hugeBase + i
+		}
+	}
+	return int(min(v, 1<<30))
 }
 
 // streamByte is the content of a stream at position i: distinct values for
@@ -369,7 +410,7 @@ func replayReader(args []string) error {
 			wants = append(wants, st.readObs)
 		}
 		var st, ca int
-		fail, what, got, herr := runReaderPath(v.Lim, v.SLen, wants, &st, &ca)
+		fail, what, got, herr := runReaderPath(v.Lim, n, v.SLen, wants, &st, &ca)
 		steps.Add(int64(st))
 		calls.Add(int64(ca))
 		if herr != nil {
@@ -386,10 +427,10 @@ func replayReader(args []string) error {
 			}
 			short = append(short, wants[fail])
 			var s2, c2 int
-			if f2, w2, g2, _ := runReaderPath(v.Lim, v.SLen, short, &s2, &c2); f2 >= 0 {
+			if f2, w2, g2, _ := runReaderPath(v.Lim, n, v.SLen, short, &s2, &c2); f2 >= 0 {
 				wants, fail, what, got = short, f2, w2, g2
 			}
-			res.Mismatch(readerKey(v.Lim, wants[:fail+1]), what,
+			res.Mismatch(readerKey(v.Lim, n, wants[:fail+1]), what,
 				map[string]any{"limit": v.Lim, "predicted": wants[fail], "observed": got, "path": readerPath(wants[:fail+1])})
 		}
 		return nil
@@ -402,9 +443,9 @@ func replayReader(args []string) error {
 
 // runReaderPath replays one path on a fresh LimitReader; fail is the index of
 // the first call that disagrees with the prediction (-1: none).
-func runReaderPath(lim, slen int, wants []readObs, steps, calls *int) (fail int, what string, got readObs, herr error) {
+func runReaderPath(lim, rot, slen int, wants []readObs, steps, calls *int) (fail int, what string, got readObs, herr error) {
 	r := &scriptedReader{salt: 0}
-	lr := ioutil.LimitReader(r, uint64(lim))
+	lr := ioutil.LimitReader(r, realLimit(lim, rot))
 	delivered := 0
 	for i, want := range wants {
 		*steps++
@@ -422,7 +463,7 @@ func runReaderPath(lim, slen int, wants []readObs, steps, calls *int) (fail int,
 		if want.Buf == 0 && want.Called && !got.Called && got.Panic == "" && got.N == 0 && got.Err == "nil" {
 			return -1, "", got, nil
 		}
-		if what = diffRead(want, got, uint64(lim)); what != "" {
+		if what = diffRead(want, got, realLimit(lim, rot)); what != "" {
 			return i, what, got, nil
 		}
 		delivered += got.N
@@ -430,9 +471,9 @@ func runReaderPath(lim, slen int, wants []readObs, steps, calls *int) (fail int,
 	return -1, "", got, nil
 }
 
-func readerKey(lim int, wants []readObs) string {
+func readerKey(lim, rot int, wants []readObs) string {
 	var key strings.Builder
-	fmt.Fprintf(&key, "LimitReader(n=%d)", lim)
+	fmt.Fprintf(&key, "LimitReader(n=%s)", limName(lim, rot))
 	for _, want := range wants {
 		if want.Called {
 			fmt.Fprintf(&key, " Read(%d)<-r(%d,%s)", want.Buf, want.K, want.RErr)
@@ -575,6 +616,14 @@ func diffWrite(want, got writeObs) string {
 		return "panic: " + got.Panic
 	case len(got.Reqs) > 1:
 		return fmt.Sprintf("w.Write called %d times by one Write", len(got.Reqs))
+	// Zero-length calls to w are outside the statement ("forwards exactly the
+	// first min(total, n) bytes"): the code forwards an empty Write while room
+	// remains and makes no call once the limit is used up, but doing either the
+	// other way round forwards the same bytes.
+	case got.Called && !want.Called && got.Req == 0 && got.N == want.N:
+		return ""
+	case !got.Called && want.Called && want.Req == 0 && got.N == want.N && got.Err == "nil":
+		return ""
 	case got.Called && !want.Called:
 		return fmt.Sprintf("w.Write called with %d byte(s) although nothing remains of the limit", got.Req)
 	case !got.Called && want.Called:
@@ -593,9 +642,9 @@ func diffWrite(want, got writeObs) string {
 
 // runWriterPath replays one path on a fresh TruncatedWriter; fail is the index
 // of the first call that disagrees with the prediction (-1: none).
-func runWriterPath(lim int, wants []writeObs, steps, calls *int) (fail int, what string, got writeObs, herr error) {
+func runWriterPath(lim, rot int, wants []writeObs, steps, calls *int) (fail int, what string, got writeObs, herr error) {
 	w := &scriptedWriter{}
-	tw := ioutil.NewTruncatedWriter(w, uint(lim))
+	tw := ioutil.NewTruncatedWriter(w, uint(realLimit(lim, rot)))
 	total := 0
 	var forwarded []byte
 	for i, want := range wants {
@@ -625,9 +674,9 @@ func runWriterPath(lim int, wants []writeObs, steps, calls *int) (fail int, what
 	return -1, "", got, nil
 }
 
-func writerKey(lim int, wants []writeObs) string {
+func writerKey(lim, rot int, wants []writeObs) string {
 	var key strings.Builder
-	fmt.Fprintf(&key, "TruncatedWriter(n=%d)", lim)
+	fmt.Fprintf(&key, "TruncatedWriter(n=%s)", limName(lim, rot))
 	for _, want := range wants {
 		if want.Called {
 			fmt.Fprintf(&key, " Write(%d)<-w(%d,%s)", want.Len, want.J, want.WErr)
@@ -691,7 +740,7 @@ func replayWriter(args []string) error {
 			wants = append(wants, st.writeObs)
 		}
 		var st, ca int
-		fail, what, got, herr := runWriterPath(v.Lim, wants, &st, &ca)
+		fail, what, got, herr := runWriterPath(v.Lim, n, wants, &st, &ca)
 		steps.Add(int64(st))
 		calls.Add(int64(ca))
 		if herr != nil {
@@ -707,10 +756,10 @@ func replayWriter(args []string) error {
 			}
 			short = append(short, wants[fail])
 			var s2, c2 int
-			if f2, w2, g2, _ := runWriterPath(v.Lim, short, &s2, &c2); f2 >= 0 {
+			if f2, w2, g2, _ := runWriterPath(v.Lim, n, short, &s2, &c2); f2 >= 0 {
 				wants, fail, what, got = short, f2, w2, g2
 			}
-			res.Mismatch(writerKey(v.Lim, wants[:fail+1]), what,
+			res.Mismatch(writerKey(v.Lim, n, wants[:fail+1]), what,
 				map[string]any{"limit": v.Lim, "predicted": wants[fail], "observed": got, "path": writerPath(wants[:fail+1])})
 		}
 		return nil
@@ -764,7 +813,9 @@ func recordIO(args []string) error {
 	rng := vh.Rand(15)
 	salt := vh.Seed()*0x100000001B3 + 15
 	pickLimit := func() int {
-		switch rng.IntN(8) {
+		switch rng.IntN(9) {
+		case 8:
+			return hugeBase + rng.IntN(len(hugeLimits)) // symbolic: one of the extreme constants
 		case 0:
 			return 0
 		case 1:
@@ -778,6 +829,11 @@ func recordIO(args []string) error {
 		}
 	}
 	pickLen := func(lim, left int) int {
+		if lim >= hugeBase {
+			// An extreme limit: sizes as for a moderate one ("what is left"
+			// cannot be allocated).
+			lim, left = 70000, 70000+rng.IntN(3)
+		}
 		switch rng.IntN(10) {
 		case 0:
 			return 0
@@ -818,8 +874,11 @@ func recordIO(args []string) error {
 			default:
 				slen = lim + rng.IntN(lim+10)
 			}
+			if lim >= hugeBase {
+				slen = rng.IntN(300000) // the stream always ends before an extreme limit
+			}
 			r := &scriptedReader{salt: salt + uint64(h)}
-			lr := ioutil.LimitReader(r, uint64(lim))
+			lr := ioutil.LimitReader(r, realLimit(lim, 0))
 			tr.Emit(ioEvent{Op: "newr", H: h, Lim: lim, SLen: slen, RErr: "nil", WErr: "nil", Err: "none"})
 			delivered := 0
 			pShort, pZero, pErr := rng.Float64()*0.5, rng.Float64()*0.2, rng.Float64()*0.2
@@ -853,7 +912,7 @@ func recordIO(args []string) error {
 					break
 				}
 				ev := ioEvent{Op: "read", H: h, Lim: lim, SLen: slen, Buf: b, Called: o.Called, Req: o.Req, K: o.K,
-					RErr: rerr, WErr: "nil", N: o.N, Err: o.Err, ELim: int(min(o.ELim, 1<<30)), From: o.From}
+					RErr: rerr, WErr: "nil", N: o.N, Err: o.Err, ELim: symLimit(o.ELim), From: o.From}
 				if !o.Called {
 					// r's prepared answer was not consumed; log the neutral one.
 					ev.K, ev.RErr = 0, "nil"
@@ -871,7 +930,7 @@ func recordIO(args []string) error {
 		// ---- writer history
 		lim := pickLimit()
 		w := &scriptedWriter{}
-		tw := ioutil.NewTruncatedWriter(w, uint(lim))
+		tw := ioutil.NewTruncatedWriter(w, uint(realLimit(lim, 0)))
 		tr.Emit(ioEvent{Op: "neww", H: h, Lim: lim, RErr: "nil", WErr: "nil", Err: "none"})
 		total, fwd := 0, 0
 		pShort, pErr := rng.Float64()*0.4, rng.Float64()*0.3
@@ -911,9 +970,11 @@ func recordIO(args []string) error {
 	if err != nil {
 		return err
 	}
+	// Standard-library readers (growing buffers, pipes, ...) as the wrapped reader.
+	sh := recordStd(tr, res, nh+dh)
 	if err := tr.Close(); err != nil {
 		return err
 	}
-	return res.Close(map[string]any{"events": tr.N, "histories": nh + dh, "reads": nReads, "writes": nWrites,
-		"driver_histories": dh, "optional_interfaces": optional})
+	return res.Close(map[string]any{"events": tr.N, "histories": nh + dh + sh, "reads": nReads, "writes": nWrites,
+		"driver_histories": dh, "std_reader_histories": sh, "optional_interfaces": optional})
 }
